@@ -30,6 +30,7 @@ Dispatch(o) ==
     [] o.name = "DeleteAll" -> DeleteAll
     [] o.name = "Len"       -> LenOp
     [] o.name = "Walk"      -> Walk
+    [] o.name = "WalkStop"  -> WalkStop
     [] o.name = "Tick"      -> Tick
     [] o.name = "Relay"     -> Relay
     [] o.name = "Cleanup"   -> Cleanup(o.skip)
